@@ -36,20 +36,22 @@ type rendering struct {
 	optOn   bool // optional keywords present
 	delimID bool // identifiers in double quotes
 	semi    string // statement terminator appended as the console does ("" = none)
+	zeroPad bool   // integer literals written with a leading zero (still decimal)
 }
 
 var c10Renderings = []rendering{
-	{"canonical", 0, " ", false, true, false, ""},
-	{"lower-case keywords", 1, " ", false, true, false, ""},
-	{"mixed-case keywords", 2, " ", false, true, false, ""},
-	{"line break between tokens", 0, "\n", false, true, false, ""},
-	{"tabs and blanks", 1, " \t  ", false, true, false, ""},
-	{"tight punctuation", 0, " ", true, true, false, ""},
-	{"optional keywords omitted", 0, " ", false, false, false, ""},
-	{"delimited identifiers", 1, " ", false, true, true, ""},
-	{"tight + omitted + CRLF", 2, "\r\n", true, false, false, ""},
-	{"trailing semicolon", 0, " ", false, true, false, ";"},
-	{"trailing blank + semicolon", 1, " ", false, true, false, " ;"},
+	{"canonical", 0, " ", false, true, false, "", false},
+	{"lower-case keywords", 1, " ", false, true, false, "", false},
+	{"mixed-case keywords", 2, " ", false, true, false, "", false},
+	{"line break between tokens", 0, "\n", false, true, false, "", false},
+	{"tabs and blanks", 1, " \t  ", false, true, false, "", false},
+	{"tight punctuation", 0, " ", true, true, false, "", false},
+	{"optional keywords omitted", 0, " ", false, false, false, "", false},
+	{"delimited identifiers", 1, " ", false, true, true, "", false},
+	{"tight + omitted + CRLF", 2, "\r\n", true, false, false, "", false},
+	{"trailing semicolon", 0, " ", false, true, false, ";", false},
+	{"trailing blank + semicolon", 1, " ", false, true, false, " ;", false},
+	{"zero-padded integer literals", 0, " ", false, true, false, "", true},
 }
 
 func renderTokens(toks []rtok, r rendering) string {
@@ -77,6 +79,10 @@ func renderTokens(toks []rtok, r rendering) string {
 		case 'i':
 			if r.delimID {
 				text = "\"" + text + "\""
+			}
+		case 'n':
+			if r.zeroPad && len(text) < 18 && text != "0" {
+				text = "0" + text
 			}
 		}
 		tightTok := t.kind == 'p' || t.kind == 'o'
@@ -288,6 +294,7 @@ type c10Case struct {
 	tree any
 	toks []rtok
 	fam  string
+	lead string // blanks in front of the statement (shifts every token relative to the scanner's buffer boundaries)
 }
 
 type c10Run struct {
@@ -306,7 +313,7 @@ func (r *c10Run) check(cs c10Case) {
 	want := normStmt(cs.tree)
 	var first string
 	for ri, rd := range c10Renderings {
-		text := renderTokens(cs.toks, rd)
+		text := cs.lead + renderTokens(cs.toks, rd)
 		if ri > 0 && text == first {
 			continue
 		}
@@ -372,7 +379,7 @@ func runC10(env *lib.Env, rep *lib.Report) {
 					for _, opt := range []bool{true, false} {
 						for _, delim := range []bool{false, true} {
 							for _, semi := range []string{"", ";", " ;"} {
-								c10Renderings = append(c10Renderings, rendering{fmt.Sprintf("kw%d sep%q tight=%v optional=%v delimited=%v semi=%q", kw, sep, tight, opt, delim, semi), kw, sep, tight, opt, delim, semi})
+								c10Renderings = append(c10Renderings, rendering{fmt.Sprintf("kw%d sep%q tight=%v optional=%v delimited=%v semi=%q", kw, sep, tight, opt, delim, semi), kw, sep, tight, opt, delim, semi, false})
 							}
 						}
 					}
@@ -426,7 +433,7 @@ func runC10(env *lib.Env, rep *lib.Report) {
 				sel.FromClause = from(g, "t", "")
 				g.kw("WHERE")
 				sel.WhereClause = sql.WhereClause{SearchCondition: g.cond(as, ors)}
-				r.check(c10Case{sel, g.toks, fmt.Sprintf("where/%d-atoms", n)})
+				r.check(c10Case{tree: sel, toks: g.toks, fam: fmt.Sprintf("where/%d-atoms", n)})
 			}
 		}
 	}
@@ -439,7 +446,7 @@ func runC10(env *lib.Env, rep *lib.Report) {
 				sel.FromClause = from(g, "t", "")
 				g.kw("WHERE")
 				sel.WhereClause = sql.WhereClause{SearchCondition: g.cond([]atom{{l, rv, o}}, nil)}
-				r.check(c10Case{sel, g.toks, "where/wide-literals"})
+				r.check(c10Case{tree: sel, toks: g.toks, fam: "where/wide-literals"})
 			}
 		}
 	}
@@ -505,7 +512,7 @@ func runC10(env *lib.Env, rep *lib.Report) {
 			} else {
 				sel.FromClause = sql.FromClause{}
 			}
-			r.check(c10Case{sel, g.toks, "select-list"})
+			r.check(c10Case{tree: sel, toks: g.toks, fam: "select-list"})
 		}
 	}
 
@@ -535,12 +542,12 @@ func runC10(env *lib.Env, rep *lib.Report) {
 			sel := sql.Select{SelectList: sql.SelectList{{ValueExpressionPrimary: sql.Asterisk{}}}}
 			sel.FromClause = sql.FromClause{ref}
 			toks := append([]rtok{{text: "SELECT", kind: 'k'}, {text: "*", kind: 'p'}, {text: "FROM", kind: 'k'}}, g.toks...)
-			r.check(c10Case{sel, toks, fmt.Sprintf("from/%d-joins", nj)})
+			r.check(c10Case{tree: sel, toks: toks, fam: fmt.Sprintf("from/%d-joins", nj)})
 			// with a WHERE behind the joins
 			g2 := &gen{toks: append([]rtok{}, toks...)}
 			g2.kw("WHERE")
 			sel.WhereClause = sql.WhereClause{SearchCondition: g2.cond([]atom{{cr("t", "a"), int64(5), sql.LTE}}, nil)}
-			r.check(c10Case{sel, g2.toks, fmt.Sprintf("from/%d-joins+where", nj)})
+			r.check(c10Case{tree: sel, toks: g2.toks, fam: fmt.Sprintf("from/%d-joins+where", nj)})
 		}
 		rec = func(j int, g *gen, ref any) {
 			if j == nj {
@@ -655,7 +662,7 @@ func runC10(env *lib.Env, rep *lib.Report) {
 						}
 					}
 					sel.GroupByClause = gb
-					r.check(c10Case{sel, g.toks, fmt.Sprintf("group-by/%d-columns", len(gb))})
+					r.check(c10Case{tree: sel, toks: g.toks, fam: fmt.Sprintf("group-by/%d-columns", len(gb))})
 				}
 			}
 		}
@@ -733,7 +740,7 @@ func runC10(env *lib.Env, rep *lib.Report) {
 						}
 					}
 					sel.LimitOffsetClause = l.c
-					r.check(c10Case{sel, g.toks, fmt.Sprintf("order-by/%d-keys+limit", len(ks))})
+					r.check(c10Case{tree: sel, toks: g.toks, fam: fmt.Sprintf("order-by/%d-keys+limit", len(ks))})
 				}
 			}
 		}
@@ -781,7 +788,7 @@ func runC10(env *lib.Env, rep *lib.Report) {
 						tvc.TableValueConstructorList = append(tvc.TableValueConstructorList, rvc)
 					}
 					ins.QueryExpression = tvc
-					r.check(c10Case{ins, g.toks, "insert"})
+					r.check(c10Case{tree: ins, toks: g.toks, fam: "insert"})
 				}
 			}
 		}
@@ -816,7 +823,7 @@ func runC10(env *lib.Env, rep *lib.Report) {
 					g.kw("WHERE")
 					up.Where = sql.WhereClause{SearchCondition: g.cond(wv.as, wv.ors)}
 				}
-				r.check(c10Case{up, g.toks, "update"})
+				r.check(c10Case{tree: up, toks: g.toks, fam: "update"})
 			}
 		}
 	}
@@ -830,7 +837,7 @@ func runC10(env *lib.Env, rep *lib.Report) {
 			g.kw("WHERE")
 			del.WhereClause = sql.WhereClause{SearchCondition: g.cond(wv.as, wv.ors)}
 		}
-		r.check(c10Case{del, g.toks, "delete"})
+		r.check(c10Case{tree: del, toks: g.toks, fam: "delete"})
 	}
 
 	// (8) CREATE TABLE with 1..4 columns of every type in every order; CREATE DATABASE; USE; SHOW
@@ -864,7 +871,7 @@ func runC10(env *lib.Env, rep *lib.Report) {
 				c.Elements = append(c.Elements, sql.TableElement{ColumnDefinition: sql.ColumnDefinition{DataType: ctypes[ci].dt, Name: name}})
 			}
 			g.p(")")
-			r.check(c10Case{c, g.toks, "create-table"})
+			r.check(c10Case{tree: c, toks: g.toks, fam: "create-table"})
 		}
 		if len(cols) == 4 {
 			return
@@ -880,23 +887,89 @@ func runC10(env *lib.Env, rep *lib.Report) {
 		g.kw("DATABASE")
 		g.id(name)
 		if name != "select" {
-			r.check(c10Case{sql.CreateDatabase{Name: name}, g.toks, "create-database"})
+			r.check(c10Case{tree: sql.CreateDatabase{Name: name}, toks: g.toks, fam: "create-database"})
 		}
 		g = &gen{}
 		g.kw("USE")
 		g.id(name)
 		if name != "select" {
-			r.check(c10Case{sql.UseStatement{DBName: name}, g.toks, "use"})
+			r.check(c10Case{tree: sql.UseStatement{DBName: name}, toks: g.toks, fam: "use"})
 		}
 	}
 	g := &gen{}
 	g.kw("SHOW")
 	g.kw("DATABASE")
-	r.check(c10Case{sql.ShowDatabase{}, g.toks, "show"})
+	r.check(c10Case{tree: sql.ShowDatabase{}, toks: g.toks, fam: "show"})
 	g = &gen{}
 	g.kw("SHOW")
 	g.toks = append(g.toks, rtok{text: "DATABASES", kind: 'k'})
-	r.check(c10Case{sql.ShowDatabase{}, g.toks, "show"})
+	r.check(c10Case{tree: sql.ShowDatabase{}, toks: g.toks, fam: "show"})
+
+	// (9) statements longer than the scanner's 1024-byte read buffer, shifted blank by blank so that
+	// every token of the region around each refill boundary straddles it in some shift
+	{
+		g := &gen{}
+		g.kw("INSERT")
+		g.kw("INTO")
+		g.id("t")
+		g.p("(")
+		g.id("c0")
+		g.p(",")
+		g.id("c1")
+		g.p(",")
+		g.id("c2")
+		g.p(")")
+		g.kw("VALUES")
+		ins := sql.InsertStatement{TableName: "t"}
+		ins.ColumnNames = []string{"c0", "c1", "c2"}
+		var tvc sql.TableValueConstructor
+		for rw := 0; rw < 70; rw++ {
+			if rw > 0 {
+				g.p(",")
+			}
+			vals := []any{int64(1000 + rw), fmt.Sprintf("customer_%02d", rw), rw%2 == 0}
+			g.p("(")
+			for i, v := range vals {
+				if i > 0 {
+					g.p(",")
+				}
+				g.lit(v)
+			}
+			g.p(")")
+			tvc.TableValueConstructorList = append(tvc.TableValueConstructorList, sql.RowValueConstructor{RowValueConstructorList: vals})
+		}
+		ins.QueryExpression = tvc
+		g2 := &gen{}
+		sel := sql.Select{SelectList: selectStar(g2)}
+		sel.FromClause = from(g2, "t", "")
+		g2.kw("WHERE")
+		var as []atom
+		var ors []bool
+		for i := 0; i < 75; i++ {
+			as = append(as, atom{cr("", fmt.Sprintf("region_code%d", i%7)), int64(i), ops[i%6]})
+			if i > 0 {
+				ors = append(ors, i%9 == 0)
+			}
+		}
+		sel.WhereClause = sql.WhereClause{SearchCondition: g2.cond(as, ors)}
+		g2.kw("ORDER")
+		g2.kw("BY")
+		g2.colref(cr("", "a"))
+		g2.kw("DESC")
+		g2.p(",")
+		g2.colref(cr("t", "b"))
+		sel.SortSpecificationList = []sql.SortSpecification{{SortKey: cr("", "a"), OrderingSpecification: sql.Token{Type: sql.DESC}}, {SortKey: cr("t", "b"), OrderingSpecification: sql.Token{Type: sql.ASC}}}
+		g2.kw("LIMIT")
+		g2.lit(int64(3))
+		g2.kw("OFFSET")
+		g2.lit(int64(1))
+		sel.LimitOffsetClause = sql.LimitOffsetClause{LimitActive: true, Limit: 3, OffsetActive: true, Offset: 1}
+		for shift := 0; shift <= 48; shift++ {
+			lead := strings.Repeat(" ", shift)
+			r.check(c10Case{tree: ins, toks: g.toks, fam: "long/insert", lead: lead})
+			r.check(c10Case{tree: sel, toks: g2.toks, fam: "long/select", lead: lead})
+		}
+	}
 
 	rep.Bounds["statement trees (all shards)"] = r.n
 	rep.Bounds["renderings per tree"] = len(c10Renderings)
